@@ -10,7 +10,7 @@ NOT_APPLICABLE = {}
 PROPS = {
     "C07": {
         "pkg": "c07",
-        "stages": [{"run": "^TestProp$", "quick": (4000, 2), "thorough": (40000, 16)}],
+        "stages": [{"run": "^TestProp$", "quick": (12000, 8), "thorough": (40000, 16)}],
         "rule": "rapid draws a rule (verb x 1-2 path variables on top-level/nested string and integer fields x "
                 "sub-pattern x body none/*/book) and a request whose path captures v1 while a competing v2 is sent "
                 "through the query (proto or JSON key, once or twice) and/or the JSON/protobuf body; oracle: the handler's "
@@ -29,7 +29,7 @@ PROPS = {
     },
     "C01": {
         "pkg": "c01",
-        "stages": [{"run": "^TestProp$", "quick": (1500, 4), "thorough": (25000, 16)}],
+        "stages": [{"run": "^TestProp$", "quick": (5000, 8), "thorough": (25000, 16)}],
         "technique": "property-based testing (rapid): grammar-generated rule sets x instantiated/near-miss/free paths against an independent reference template matcher",
         "level_text": "Generated-input search over rule sets and request paths; every dispatch must be explained by a rule of the "
                       "dispatched method under a reference matcher written from the google.api.http grammar. Exploration only.",
@@ -50,7 +50,7 @@ PROPS = {
     },
     "C02": {
         "pkg": "c02",
-        "stages": [{"run": "^TestProp$", "quick": (1500, 4), "thorough": (20000, 16)}],
+        "stages": [{"run": "^TestProp$", "quick": (5000, 8), "thorough": (20000, 16)}],
         "technique": "property-based testing (rapid): conflict-free generated rule sets, instantiated paths, reference matcher for the must-match set, literal-dominance oracle, and a registration-order metamorphic relation",
         "level_text": "Generated-input search; completeness and literal precedence are decided against an independent reference matcher, "
                       "order independence by a differential run of the same rule set registered in a permuted order. Exploration only.",
@@ -71,7 +71,7 @@ PROPS = {
     },
     "C16": {
         "pkg": "c16",
-        "stages": [{"run": "^TestProp$", "quick": (4000, 4), "thorough": (60000, 16)}],
+        "stages": [{"run": "^TestProp$", "quick": (10000, 8), "thorough": (60000, 16)}],
         "technique": "property-based testing (rapid): grammar-derived valid templates, single-edit mutants, selector/field-path/collision faults, classified by an independent EBNF parser; before/after probe differential for rejected registrations",
         "level_text": "Generated-input search over rules registered onto empty and populated muxes; the required verdict comes from a reference "
                       "parser written from the documented EBNF plus descriptor resolution; rejected registrations must leave a recorded probe set unchanged. Exploration only.",
@@ -90,7 +90,7 @@ PROPS = {
     },
     "C19": {
         "pkg": "c19",
-        "stages": [{"run": "^TestProp", "quick": (1200, 4), "thorough": (15000, 16)}],
+        "stages": [{"run": "^TestProp", "quick": (2500, 8), "thorough": (15000, 16)}],
         "technique": "property-based testing (rapid): selector sets vs a reference cover relation on a universe of prefix-sharing names; annotation-vs-service-config differential; healthz against a model of the health server",
         "level_text": "Generated-input search: (1) for every selector set and each of 18 methods with string-prefix-sharing names, a rule is bound iff the "
                       "reference cover relation holds; (2) the same rule as annotation and as config yields identical outcomes on a generated request set; "
@@ -108,7 +108,7 @@ PROPS = {
     },
     "C03": {
         "pkg": "c03",
-        "stages": [{"run": "^TestProp$", "quick": (5000, 4), "thorough": (80000, 16)}],
+        "stages": [{"run": "^TestProp$", "quick": (12000, 8), "thorough": (80000, 16)}],
         "technique": "property-based testing (rapid): descriptor-driven message generator, split into path/query/body by the harness, round-trip oracle (proto.Equal) plus protojson-as-referee for invalid and non-canonical URL text",
         "level_text": "Generated-input search over a rich schema (every scalar kind, enum, bytes, repeated, nested, oneof, wrappers, Timestamp/Duration/FieldMask, maps, "
                       "repeated messages) x rule shapes x codecs x gzip x read partitions; positive law: handler message equals the generated message; negative law: "
@@ -127,7 +127,7 @@ PROPS = {
     },
     "C04": {
         "pkg": "c04",
-        "stages": [{"run": "^TestProp$", "quick": (5000, 4), "thorough": (80000, 16)}],
+        "stages": [{"run": "^TestProp$", "quick": (12000, 8), "thorough": (80000, 16)}],
         "technique": "property-based testing (rapid): generated replies x Accept/Accept-Encoding header grammar x routes (plain, response_body, HttpBody); independent decoders and an RFC 7231 Accept parser as oracle",
         "level_text": "Generated-input search: the response body must decode, with the codec named by the response Content-Type and an independent decoder, to exactly the "
                       "reply (or the response_body field); the Content-Type must be admitted by the Accept header per a reference RFC 7231 parser; HttpBody replies are "
@@ -144,7 +144,7 @@ PROPS = {
     },
     "C20": {
         "pkg": "c20",
-        "stages": [{"run": "^TestProp$", "quick": (3000, 4), "thorough": (40000, 16)}],
+        "stages": [{"run": "^TestProp$", "quick": (6000, 8), "thorough": (40000, 16)}],
         "technique": "property-based testing (rapid): generated mount-pattern sets and requests on four protocols; metamorphic oracle (response under prefix == bare mux response on stripped path) plus a ServeMux longest-prefix model",
         "level_text": "Generated-input search over mount pattern sets, extra handlers and requests (transcoding, Twirp, gRPC, gRPC-web) driven through http.Server.Handler "
                       "in-process; each response (status, headers, body, trailers, handler-received message) must equal the bare mux's response on the stripped path; "
@@ -173,7 +173,7 @@ PROPS = {
     },
     "C06": {
         "pkg": "c06",
-        "stages": [{"run": "^TestProp$", "quick": (3000, 4), "thorough": (40000, 16)},
+        "stages": [{"run": "^TestProp$", "quick": (5000, 8), "thorough": (40000, 16)},
                    {"run": "^TestPropWS$", "quick": (150, 2), "thorough": (1500, 8)}],
         "technique": "property-based testing (rapid): generated message sequences x transport x codec x compression x read partition x truncation offset, recording handlers and independent frame/JSON/varint decoders as oracle",
         "level_text": "Generated-input search over client-, server- and bidi-streaming calls on gRPC, gRPC-web (binary/text), HTTP JSON, HTTP length-delimited protobuf, "
@@ -191,7 +191,7 @@ PROPS = {
     },
     "C08": {
         "pkg": "c08",
-        "stages": [{"run": "^TestProp$", "quick": (3000, 4), "thorough": (40000, 16)},
+        "stages": [{"run": "^TestProp$", "quick": (6000, 8), "thorough": (40000, 16)},
                    {"run": "^TestPropWS$", "quick": (150, 2), "thorough": (1500, 8)}],
         "technique": "property-based testing (rapid): messages with exactly controlled encoded size around configured limits across the protocol x codec x compression matrix; recording handlers as over-limit oracle, success as no-spurious-refusal oracle",
         "level_text": "Generated-input search: request and reply messages whose encoded size is exactly L-1, L, L+1, 4L, 64L or 1 MiB (compressible padding, so gzip frames stay far "
@@ -205,8 +205,8 @@ PROPS = {
     },
     "C05": {
         "pkg": "c05",
-        "stages": [{"run": "^TestProp$", "quick": (6000, 4), "thorough": (60000, 16)},
-                   {"run": "^TestPropReal$", "quick": (400, 4), "thorough": (4000, 16)}],
+        "stages": [{"run": "^TestProp$", "quick": (12000, 8), "thorough": (60000, 16)},
+                   {"run": "^TestPropReal$", "quick": (600, 6), "thorough": (4000, 16)}],
         "technique": "property-based testing (rapid): generated (code, message, details, failure point) x protocol, checked with a real grpc-go client, independent frame/percent/base64/JSON decoders and the documented code tables as oracle",
         "level_text": "Generated-input search over status codes 0..16 and out-of-range values, messages that need escaping (%, control bytes, multi-byte UTF-8, long), optional details and errors "
                       "before/after replies on HTTP JSON/protobuf, Twirp, gRPC (real grpc-go client over h2c), gRPC-web(-text) and WebSocket (gobwas client): the client must observe the same code, "
@@ -219,8 +219,8 @@ PROPS = {
     },
     "C14": {
         "pkg": "c14",
-        "stages": [{"run": "^TestProp$", "quick": (6000, 4), "thorough": (60000, 16)},
-                   {"run": "^TestPropReal$", "quick": (400, 4), "thorough": (5000, 16)}],
+        "stages": [{"run": "^TestProp$", "quick": (12000, 8), "thorough": (60000, 16)},
+                   {"run": "^TestPropReal$", "quick": (600, 6), "thorough": (5000, 16)}],
         "technique": "property-based testing (rapid): generated request headers and handler header/trailer sets (incl. -bin values and reserved names) x transport; handler-side metadata and client-side headers/trailers (raw, gRPC-web trailer frame, real grpc-go client) compared with what was sent",
         "level_text": "Generated-input search: inbound headers (mixed-case names, multi-valued, -bin values padded and unpadded) must reach the handler's incoming metadata exactly; "
                       "handler header/trailer metadata must reach the client byte-exact on gRPC (in-process and real grpc-go client), gRPC-web and HTTP transcoding, for successful and failing "
@@ -233,7 +233,7 @@ PROPS = {
     },
     "C18": {
         "pkg": "c18",
-        "stages": [{"run": "^TestProp$", "quick": (5000, 4), "thorough": (60000, 16)}],
+        "stages": [{"run": "^TestProp$", "quick": (10000, 8), "thorough": (60000, 16)}],
         "technique": "property-based testing (rapid): generated RPC scripts x protocol x option subsets with recording interceptors and stats handler; event-grammar oracle plus an options-on/off metamorphic relation",
         "level_text": "Generated-input search over unary and the three streaming shapes on HTTP transcoding, gRPC and gRPC-web, message sizes from empty upward (incl. < 5 bytes), "
                       "successful and failing handlers and every subset of {unary interceptor, stream interceptor, stats handler} with pass-through, reply-replacing, error-replacing and "
@@ -262,7 +262,7 @@ PROPS = {
     },
     "C10": {
         "pkg": "c10",
-        "stages": [{"run": "^TestProp$", "quick": (300, 4), "thorough": (4000, 16), "timeout": {"quick": 900, "thorough": 5400}}],
+        "stages": [{"run": "^TestProp$", "quick": (500, 8), "thorough": (4000, 16), "timeout": {"quick": 900, "thorough": 5400}}],
         "technique": "property-based testing (rapid): generated lock-step call scripts run directly against a real reflection-enabled backend and through larking (RegisterConn); differential comparison of backend and client transcripts",
         "level_text": "Generated call scripts (unary and the three streaming shapes, request metadata incl. -bin and multi-valued keys, ping-pong or batch discipline, backend failure before the "
                       "first response / after k responses / after the client's half-close, status with message and details) are executed with a real grpc-go client directly against the "
@@ -289,7 +289,7 @@ PROPS = {
     },
     "C12": {
         "pkg": "c12",
-        "stages": [{"run": "^TestPropSnapshots$", "quick": (250, 4), "thorough": (4000, 16), "timeout": {"quick": 900, "thorough": 5400}},
+        "stages": [{"run": "^TestPropSnapshots$", "quick": (400, 8), "thorough": (4000, 16), "timeout": {"quick": 900, "thorough": 5400}},
                    {"run": "^TestPropStress$", "quick": (12, 4), "thorough": (120, 16), "race": True, "timeout": {"quick": 900, "thorough": 5400}}],
         "replay_race": True,
         "technique": "property-based testing (rapid): (a) generated writer histories with a snapshot-immutability monitor over hook-exposed fingerprints (deterministic, no threads); (b) seeded concurrent stress plans under the Go race detector with a visibility oracle",
@@ -304,7 +304,7 @@ PROPS = {
     },
     "C13": {
         "pkg": "c13",
-        "stages": [{"run": "^TestPropInterleave$", "quick": (1500, 4), "thorough": (20000, 16), "timeout": {"quick": 900, "thorough": 5400}},
+        "stages": [{"run": "^TestPropInterleave$", "quick": (2500, 8), "thorough": (20000, 16), "timeout": {"quick": 900, "thorough": 5400}},
                    {"run": "^TestPropStress$", "quick": (6, 4), "thorough": (60, 16), "race": True, "timeout": {"quick": 900, "thorough": 5400}}],
         "replay_race": True,
         "technique": "property-based testing (rapid): (a) harness-owned interleavings of 2-4 calls at message granularity with self-describing payloads re-verified after the other calls ran; (b) seeded mixed-protocol stress with injected faults under the Go race detector",
